@@ -39,6 +39,14 @@ def convert(task):
     cfg, doc, limit = task
     sys.path.insert(0, os.environ.get("MISTUNE_SRC", "/repo/src"))
     signal.signal(signal.SIGALRM, _alarm)
+    try:
+        # a conversion that never stops usually also grows without bound: MemoryError instead of taking the machine down
+        soft, hard = resource.getrlimit(resource.RLIMIT_AS)
+        lim = 3 << 30
+        if soft == resource.RLIM_INFINITY or soft > lim:
+            resource.setrlimit(resource.RLIMIT_AS, (lim, hard))
+    except Exception:
+        pass
     t0 = time.process_time()
     try:
         md = _get(cfg)
